@@ -26,6 +26,8 @@ KNOWN_FILE = os.path.join(VERIF, "known_findings.json")
 
 HARNESS_ERROR = 3  # reserved exit code: machinery failure (never a verdict)
 MAX_SUBPROCESS_REPLAYS = 6
+MAX_PATH_WITNESSES = 8  # per case: native runs on solver-chosen witnesses of explored paths
+WITNESS_STRIDE = 1
 MAX_VIOLATION_LINES = 20
 
 
@@ -326,9 +328,12 @@ def explore_case(
     t0 = time.time()
     q0 = dict(ENGINE.stats)
     raw: List[Tuple[Issue, List[bool]]] = []
+    witnesses: List[Dict[str, Fraction]] = []
     inconcl: List[str] = []
     havoc_events = 0
     path_log: List[Dict] = []
+
+    summary_paths = [0]
 
     def fn():
         ctx = SymCtx(case, atoms)
@@ -357,6 +362,18 @@ def explore_case(
             ctx.fail("uninitialised", "a branch depends on memory the operation never wrote: %s" % hv[0][:80])
         for iss in ctx.issues:
             raw.append((iss, list(res.decisions)))
+        if not ctx.issues and atoms and len(witnesses) < MAX_PATH_WITNESSES and (summary_paths[0] % WITNESS_STRIDE == 0):
+            # a concrete witness of this path's condition (small integers preferred): the native run below is steered by the
+            # solver towards this path's boundary values
+            from .engine import model_value
+
+            m = ENGINE.small_model(atoms=atoms)
+            if m is not None:
+                try:
+                    witnesses.append({a: model_value(m, a) for a in atoms})
+                except Exception:
+                    pass
+        summary_paths[0] += 1
         if len(path_log) < 3:
             path_log.append({"decisions": len(res.decisions), "pc": [str(c)[:80] for c in res.pc[:6]], "checked": ctx.checked})
 
@@ -412,10 +429,23 @@ def explore_case(
     import zlib
 
     frng = random.Random(zlib.crc32(json.dumps(case, sort_keys=True, default=str).encode()))
-    for _k in range(2):
-        vals = {a: Fraction(frng.choice([-3, -2, -1, 0, 0, 1, 1, 2, 3, 5])) for a in atoms}
+    executed = set()
+
+    def _prof(frame, event, arg):
+        if event == "call":
+            fn = frame.f_code.co_filename
+            if "/numpoly/" in fn and "/verif/" not in fn:
+                executed.add("%s:%s" % (fn.split("/numpoly/", 1)[1], frame.f_code.co_name))
+
+    valuations = [{a: Fraction(frng.choice([-3, -2, -1, 0, 0, 1, 1, 2, 3, 5])) for a in atoms} for _ in range(2)] + witnesses
+    for _k, vals in enumerate(valuations):
         try:
-            rep = concrete_run_poisoned(body, case, vals, options)
+            if _k == 0:
+                sys.setprofile(_prof)  # measured list of numpoly functions this case executes
+            try:
+                rep = concrete_run_poisoned(body, case, vals, options)
+            finally:
+                sys.setprofile(None)
         except Exception as e:
             rep = [Issue("harness-exception", case.get("op", "?"), "%s: %s" % (type(e).__name__, e))]
         fidelity += 1
@@ -430,12 +460,13 @@ def explore_case(
             rec["signature"] = sig
             rec["values"] = {a: frac_str(v) for a, v in vals.items()}
             rec["native_detail"] = r.detail
-            rec["detail"] += " [native fidelity run]"
+            rec["detail"] += " [native fidelity run]" if _k < 2 else " [native run on a solver-chosen path witness]"
             confirmed.append(rec)
     d = {k: ENGINE.stats[k] - q0.get(k, 0) for k in ENGINE.stats}
     return {
         "case": case,
         "fidelity_runs": fidelity,
+        "functions_executed": sorted(executed),
         "assumptions_used": sorted(ENGINE.assumptions_used),
         "paths": summary["paths"],
         "exhausted": summary["exhausted"],
@@ -709,6 +740,8 @@ def finish(
         },
         "bounds": bounds,
         "functions_encoded": functions or [],
+        "functions_executed_measured": sorted({f for r in reports for f in (r.get("functions_executed") or [])})[:400],
+        "assumptions_used_measured": sorted({a for r in reports for a in (r.get("assumptions_used") or [])}),
         "raw_counterexamples": int(sum(r.get("raw_issues", 0) for r in reports)),
         "counterexamples_confirmed_natively": len(confirmed),
         "counterexamples_not_reproduced": int(unconfirmed + not_reproduced),
